@@ -62,6 +62,15 @@ var curatedRoots = []Root{
 	{FEN: "1k6/8/8/8/8/8/7r/K5r1 w - - 0 1", Tag: "mated"},
 }
 
+// tinyTreeFENs: bare kings, locked pawns.
+var tinyTreeFENs = []string{
+	"4k3/8/2K5/8/8/8/8/8 w - - 0 1",
+	"8/8/8/8/8/k7/8/K7 w - - 0 1",
+	"k7/8/8/p1p1p1p1/P1P1P1P1/8/8/K7 w - - 0 1",
+	"k7/8/8/p1p1p1p1/P1P1P1P1/8/8/K7 b - - 0 1",
+	"7k/8/8/p7/P7/8/8/K7 w - - 0 1",
+}
+
 // validateCurated checks every curated root against the reference model.
 func validateCurated() error {
 	for _, r := range curatedRoots {
@@ -73,7 +82,7 @@ func validateCurated() error {
 			return fmt.Errorf("curated root %q: %v", r.FEN, err)
 		}
 	}
-	for _, f := range benchFENs {
+	for _, f := range append(append([]string(nil), benchFENs...), tinyTreeFENs...) {
 		p, err := ref.ParseFEN(f)
 		if err != nil {
 			return fmt.Errorf("bench root %q: %v", f, err)
@@ -286,7 +295,7 @@ func randomEndgame(rng *rand.Rand) Root {
 }
 
 // RootClass names of genRoot.
-var rootClasses = []string{"bench", "bench-play", "start-play", "curated", "curated-play", "shuffle2", "shuffle3", "shuffle-ep", "fifty", "fifty-long", "endgame", "captures", "promo-race", "triangle"}
+var rootClasses = []string{"bench", "bench-play", "start-play", "curated", "curated-play", "shuffle2", "shuffle3", "shuffle-ep", "fifty", "fifty-long", "endgame", "captures", "promo-race", "triangle", "tiny-tree"}
 
 // genRoot draws a root of the given class ("" = weighted random class). Every
 // root is validated by the reference model; an invalid one is a harness bug.
@@ -304,7 +313,7 @@ func genRoot(rng *rand.Rand, class string) Root {
 
 func genRootUnchecked(rng *rand.Rand, class string) Root {
 	if class == "" {
-		weights := []int{12, 12, 12, 10, 8, 6, 6, 3, 5, 1, 12, 5, 4, 5}
+		weights := []int{12, 12, 12, 10, 8, 6, 6, 3, 5, 1, 12, 5, 4, 5, 3}
 		t := 0
 		for _, w := range weights {
 			t += w
@@ -411,6 +420,10 @@ func genRootUnchecked(rng *rand.Rand, class string) Root {
 			shuffle(rng, g, 8)
 		}
 		return mk(fen, g, class)
+	case "tiny-tree":
+		// roots whose whole search tree is tiny: a search reaches the ply cap in
+		// a few tens of thousands of nodes and then ends by itself
+		return Root{FEN: pick(rng, tinyTreeFENs), Tag: class}
 	case "long-game":
 		// a game of many hundred plies: a position command of several kilobytes,
 		// a hash history that outgrows its initial capacity
